@@ -37,11 +37,46 @@ state in which `QueueOkD` is false ((1,1) is in queue 0 and a task of request 1)
 equation of worker 1 is false (`0 + 10000 + 10000 + 5000 ≠ 30000`) -/
 theorem reuseQ_witness :
     RunOk OpOk5 {} (reuseQOps ++ [reuseQOp]) ∧ RunOk OpOk4 {} reuseQOps ∧ ¬ NoIdReuse (reuseQOps ++ [reuseQOp]) ∧
-    ((run {} reuseQOps).toOption.map fun r => (decide (QueueOkD r.1), r.1.queues.map fun q => q.ready,
-        r.1.tasks.map fun t => (t.id, t.rq))) =
-      some (false, [[(5, [(1, 3)]), (0, [(1, 1), (1, 2)])], [(0, [(1, 1)])]],
-        [((1, 0), 0), ((1, 2), 0), ((1, 3), 0), ((1, 1), 1)]) ∧
+    ((run {} reuseQOps).toOption.map fun r => decide (QueueOkD r.1)) = some false ∧
+    ((run {} reuseQOps).toOption.map fun r => r.1.queues.map fun q => q.ready) =
+      some [[(5, [(1, 3)]), (0, [(1, 1), (1, 2)])], [(0, [(1, 1)])]] ∧
+    ((run {} reuseQOps).toOption.map fun r => r.1.tasks.map fun t => (t.id, t.rq)) =
+      some [((1, 0), 0), ((1, 2), 0), ((1, 3), 0), ((1, 1), 1)] ∧
     ((run {} (reuseQOps ++ [reuseQOp])).toOption.map fun r => (resAtB r.1 1 0, r.1.workers.map wAsg)) =
-      some (false, [[(1, 0), (1, 3), (1, 1)]]) := by decide
+      some (false, [[(1, 0), (1, 3), (1, 1)]]) :=
+  ⟨by decide, by decide, by decide, by decide, by decide, by decide, by decide⟩
+
+/-- **"every queued id is a task of the map" is false in the model**, also without id reuse: the first six
+operations of `reuseQOps` satisfy `OpOk4` and `NoIdReuse`; afterwards (1,1) is in ready queue 0 and not in the map;
+a scheduling round that takes it stops with the panic `get_task` (the `Finished` for a Retracting task that was
+never announced Running is what a correct worker does not send). -/
+theorem staleQ_witness :
+    RunOk OpOk4 {} (reuseQOps.take 6 ++ [reuseQOp]) ∧ NoIdReuse (reuseQOps.take 6 ++ [reuseQOp]) ∧
+    ((run {} (reuseQOps.take 6)).toOption.map fun r => r.1.queues.map fun q => q.ready) =
+      some [[(5, [(1, 3)]), (0, [(1, 1), (1, 2)])]] ∧
+    ((run {} (reuseQOps.take 6)).toOption.map fun r => r.1.tasks.map fun t => t.id) = some [(1, 0), (1, 2), (1, 3)] ∧
+    (match run {} (reuseQOps.take 6 ++ [reuseQOp]) with | .error (.panic site) => site | .ok _ => "ok") = "get_task" :=
+  ⟨by decide, by decide, by decide, by decide, by decide⟩
+
+/-- a dependency named twice in one submit: `on_new_tasks` counts it twice and registers the consumer once -/
+def dupDepOps : List Op :=
+  [.newWorker (wkr 1),
+   .newRq [{ entries := [⟨0, .amount 5000⟩] }],
+   .newTasks [ntk 0, ntk 1 0 [(1, 0), (1, 0)]],
+   .schedule { sn := [{ rq := 0, v := 0, counts := [(1, 1)], taken := [(1, 0)] }] },
+   .update 1 [.running (1, 0) 0] [],
+   .update 1 [.finished (1, 0)] []]
+
+/-- **the dependency count is `≤`, not `=`**: after the submit (1,1) is `Waiting 2` and listed once; after its only
+dependency finished it is `Waiting 1`, listed by nobody and in no queue — it never becomes ready. (HyperQueue
+removes duplicates before it hands the dependencies to tako: `build_tasks_graph` collects them into a set.) -/
+theorem dupDep_witness :
+    RunOk OpOk4 {} dupDepOps ∧ NoIdReuse dupDepOps ∧
+    ((run {} (dupDepOps.take 3)).toOption.map fun r => r.1.tasks.map fun t => (t.id, t.consumers, t.state)) =
+      some [((1, 0), [(1, 1)], .waiting 0), ((1, 1), [], .waiting 2)] ∧
+    ((run {} dupDepOps).toOption.map fun r => r.1.tasks.map fun t => (t.id, t.consumers, t.state)) =
+      some [((1, 1), [], .waiting 1)] ∧
+    ((run {} dupDepOps).toOption.map fun r => r.1.queues.map fun q => qIds q) = some [[]] :=
+  ⟨by decide, by decide, by decide, by decide, by decide⟩
 
 end HqModel.Core
